@@ -365,6 +365,20 @@ func (fr *Frame) monitorRelease(st *State, c *ast.CallExpr, key string, owner Va
 		}
 		x.u.oblige("monitor:"+short+":invariant-at-unlock:"+inv.Label, "assert", inv.Src, fr.pos(c.Pos()), st.pc, t)
 	}
+	// guarantee: what this critical section did to the guarded state, relative to the state
+	// at its acquisition, is within what the other goroutines rely on
+	if acq := x.monAcq[key]; acq != nil && len(mon.Guarantee) > 0 {
+		genv := fr.monitorEnv(st, mon, owner)
+		genv.old = acq
+		for _, g := range mon.Guarantee {
+			t, err := fr.evalClause(genv, g)
+			if err != nil {
+				x.u.oblige("monitor:"+short+":guarantee-at-unlock:"+g.Label, "contract-stale", g.Src, fr.pos(c.Pos()), st.pc, "false").Clause = "contract-stale: " + err.Error()
+				continue
+			}
+			x.u.oblige("monitor:"+short+":guarantee-at-unlock:"+g.Label, "assert", g.Src, fr.pos(c.Pos()), st.pc, t)
+		}
+	}
 	st.ghost["mrel:"+key] = Val{T: "true", S: "Bool"}
 }
 
@@ -372,9 +386,18 @@ func (fr *Frame) monitorAcquire(st *State, c *ast.CallExpr, key string, owner Va
 	x := fr.x
 	if flag, ok := st.ghost["mrel:"+key]; ok && flag.T != "false" {
 		hv := func(s *State) {
+			pre := s.clone()
 			for _, m := range mon.Modifies {
 				for _, k := range x.placeKeys(x.eng.pkgs[mon.Pkg], m) {
 					x.havocHeap(s, k)
+				}
+			}
+			// rely: what the other goroutines may have done since the release
+			renv := fr.monitorEnv(s, mon, owner)
+			renv.old = pre
+			for _, r := range mon.Rely {
+				if t, err := fr.evalClause(renv, r); err == nil {
+					x.u.gfact(s.pc, t)
 				}
 			}
 		}
@@ -391,10 +414,18 @@ func (fr *Frame) monitorAcquire(st *State, c *ast.CallExpr, key string, owner Va
 	}
 	env := fr.monitorEnv(st, mon, owner)
 	for _, inv := range mon.Requires {
-		if t, err := fr.evalClause(env, inv); err == nil {
-			x.u.gfact(st.pc, t)
+		t, err := fr.evalClause(env, inv)
+		if err != nil {
+			x.u.oblige("monitor:"+strings.TrimPrefix(key, "mutex:")+":invariant-at-lock:"+inv.Label, "contract-stale", inv.Src, fr.pos(c.Pos()), st.pc, "false").Clause = "contract-stale: " + err.Error()
+			continue
 		}
+		x.u.gfact(st.pc, t)
 	}
+	if x.monAcq == nil {
+		x.monAcq = map[string]*State{}
+	}
+	x.monAcq[key] = st.clone()
+	x.lastAcq = x.monAcq[key]
 }
 
 func init() {
